@@ -88,9 +88,6 @@ impl Ev {
     pub const KIND_NAMES: [&'static str; 10] = [
         "acc", "clear", "neg", "load", "restart", "inject", "split2", "split3", "order", "matdot",
     ];
-    pub fn is_c12_only(&self) -> bool {
-        matches!(self, Ev::Neg(_) | Ev::Load(..) | Ev::Split2 | Ev::Split3)
-    }
     pub fn text(&self) -> String {
         match self {
             Ev::Acc(a) => format!("acc {}", a.text()),
